@@ -14,6 +14,14 @@ CHECKS = {
         technique="constant folding + table algebra; abstract interpretation over GF(2)-affine bit forms (array provenance)",
         note="trusted: CPython ast, sa/bitabs.py models of bitarray/numpy subscripts, C06 for the component codes; error-correction capability for corrupted words is outside the quick tier",
         ref="DESIGN.md §3 C02"),
+    "C05": dict(
+        text="Static: CRC parameters and masks folded and compared with pinned ETSI values; the real register classes are analysed by abstract interpretation over GF(2)-affine forms "
+             "(exact if-conversion of the shift/xor branches; lookup table obtained by constant evaluation and indexed exactly because it is GF(2)-linear): for all five configurations, both modes "
+             "and every analysed message length the checksum equals message(x)*x^w mod g(x) for ALL messages of that length, with one calculator reused across lengths (history independence); "
+             "front ends (inversion, mask, byte swap/bit order, parts assembly, check==calculate==given) are decided on top of the real engine.",
+        technique="constant folding; abstract interpretation over GF(2)-affine forms with if-conversion and linear-table lookup",
+        note="trusted: CPython ast, bitarray operation models (endianness, shifts, lexicographic compare); lengths analysed are listed in the evidence (quick: 26 lengths up to 96 bits, thorough: 1..129,144,192); burst/3-bit detection follows from the remainder property and is not separately checked",
+        ref="DESIGN.md §3 C05"),
     "C06": dict(
         text="Static, exhaustive over the finite tables: each generator matrix is folded from the source and checked with the checker's own GF(2) algebra "
              "(systematic, rank, weight of all 2^k codewords, H=[P^T|I], distinct columns, SEC-DED); generate/check/check_and_correct are analysed by abstract "
@@ -36,6 +44,13 @@ CHECKS = {
         technique="constant folding + table algebra; abstract interpretation with a finite-function (truth-table) domain and per-statement case splitting",
         note="trusted: CPython ast, bitarray/array models; rejection of impossible points is decided structurally (reset/assert placement), not for every corrupted stream",
         ref="DESIGN.md §3 C10"),
+    "C11": dict(
+        text="Static: GF(2^8) tables folded and compared with the field computed by the checker; log_multiply evaluated exactly in the finite-function domain for all 65 536 operand pairs; "
+             "generate/check analysed by abstract interpretation over GF(2)-affine forms of a symbolic message, word and mask (multiplication by a constant is linear): all syndromes of every generated "
+             "word vanish with the mask removed, and the acceptance condition of check is a rank-24 linear system equivalent to the syndrome equations.",
+        technique="constant folding + GF(2^8) algebra; finite-function evaluation; abstract interpretation over GF(2)-affine forms",
+        note="trusted: CPython ast, sa/algebra.py GF(256) arithmetic, bytes/int operation models",
+        ref="DESIGN.md §3 C11"),
 }
 
 NA_REASON = {
